@@ -744,6 +744,9 @@ where
         self.topic_alias_send = None;
         self.topic_alias_recv = None;
 
+        // Drop a partially received frame
+        self.packet_builder.reset();
+
         // Release packet IDs for SUBACK
         for packet_id in self.pid_suback.drain() {
             if self.pid_man.is_used_id(packet_id) {
